@@ -364,8 +364,9 @@ class GeneInfo:
         gene_info.start = read_int(infile)
         gene_info.end = read_int(infile)
 
-        gene_info.all_read_region_start = gene_info.start
-        gene_info.all_read_region_end = gene_info.end
+        # region covered by the reads, the reference sequence is loaded for it
+        gene_info.all_read_region_start = read_int(infile)
+        gene_info.all_read_region_end = read_int(infile)
 
         # the rest is computed based on the database
         gene_info.reference_region = None
@@ -404,6 +405,8 @@ class GeneInfo:
         write_string(self.chr_id, outfile)
         write_int(self.start, outfile)
         write_int(self.end, outfile)
+        write_int(self.all_read_region_start, outfile)
+        write_int(self.all_read_region_end, outfile)
 
     def empty(self):
         return not self.exon_profiles.features
